@@ -1,6 +1,7 @@
 package main
 
 import (
+	"bytes"
 	"encoding/json"
 	"fmt"
 	"go/format"
@@ -405,6 +406,22 @@ func c02Check(in c02Input) (key, what string) {
 		return "c02-error", "printing the edited tree failed: " + perr.Error()
 	}
 	c02Stat[fmt.Sprintf("compared: %d edits applied", applied)]++
+	// the same tree through a restorer with Extras (objects and scopes restored; a deleted element that
+	// an object still points at is restored outside the tree): nothing of it may reach the print
+	if out == string(want) {
+		var out2 string
+		var err2 error
+		pm2 := safely(func() {
+			r := decorator.NewRestorer()
+			r.Extras = true
+			var buf bytes.Buffer
+			err2 = r.Fprint(&buf, f)
+			out2 = buf.String()
+		})
+		if pm2 == "" && err2 == nil && out2 != out {
+			return "c02-extras", fmt.Sprintf("%s list, %d edits: the print with Restorer.Extras differs from the print without:\n%s", in.Kind, applied, firstDiff(out, out2))
+		}
+	}
 	if out != string(want) {
 		k := "c02-bytes"
 		// every comment still with its element?  (diagnosis only)
